@@ -17,7 +17,9 @@ RULE = (
     "(2..30 grains, chi in [0.2,0.9] or 0, M* in [50,200] so that grains shrink through the "
     "threshold, 1..4 updates) with pydrex.utils.apply_gbs observed through a recording "
     "wrapper: after every update the stored snapshot must be the floor of the integrated "
-    "state as the statement describes. Non-trivial: at least one grain floored and at "
+    "state as the statement describes; every accepted regime (dislocation types, matrix "
+    "diffusion, viscosity bounds), set on the mineral or per update through get_regime. "
+    "Non-trivial: at least one grain floored and at "
     "least one not (function level: additionally n>=3); distinct = distinct canonical JSON."
 )
 ASSUMPTIONS = [
